@@ -400,7 +400,7 @@ CORPUS += [
     V("C12", "batchify-b-major", OPSF, "return x.expand(repeats, *s).contiguous().view(s[0] * repeats, *s[1:])", "return x.unsqueeze(1).expand(s[0], repeats, *s[1:]).contiguous().view(s[0] * repeats, *s[1:])", "C12.a"),
     V("C12", "unbatchify-view-swapped", OPSF, "return x.view(repeats, s[0] // repeats, *s[1:]).permute(1, 0, *range(2, len(s) + 1))", "return x.view(s[0] // repeats, repeats, *s[1:])", "C12.a"),
     V("C12", "unbatchify-loop-not-reversed", OPSF, "    for s in reversed(\n        shape\n    ):  # we need to reverse the shape to unbatchify in the right order", "    for s in shape:", "C12.a"),
-    V("C12", "start-nodes-repeat", OPSF, "            torch.arange(num_starts, device=td.device).repeat_interleave(td.shape[0])\n            % num_loc\n            + 1", "            torch.arange(num_starts, device=td.device).repeat(td.shape[0])\n            % num_loc\n            + 1", "C12.a"),
+    V("C12", "start-nodes-repeat", OPSF, "            torch.arange(num_starts, device=td.device).repeat_interleave(td.shape[0])\n            % (num_nodes - 1)\n            + 1", "            torch.arange(num_starts, device=td.device).repeat(td.shape[0])\n            % (num_nodes - 1)\n            + 1", "C12.a"),
     V("C12", "op-resample-pattern-b-major", OPSF, '                selected = rearrange(selected, "b n -> (n b)")', '                selected = rearrange(selected, "b n -> (b n)")', "C12.a"),
     V("C12", "am-decoder-logits-b-major", "rl4co/models/zoo/am/decoder.py", 'logits = rearrange(logits, "b s l -> (s b) l", s=num_starts)', 'logits = rearrange(logits, "b s l -> (b s) l", s=num_starts)', "C12.a"),
     V("C12", "symnco-invariance-b-major-again", "rl4co/models/zoo/symnco/losses.py", '"(a b) ... -> b a ..."', '"(b a) ... -> b a ..."', "C12.a"),
@@ -408,7 +408,11 @@ CORPUS += [
     V("C12", "pomo-ll-other-tuple", "rl4co/models/zoo/pomo/model.py", 'log_likelihood = unbatchify(out["log_likelihood"], (n_aug, n_start))', 'log_likelihood = unbatchify(out["log_likelihood"], (n_start, n_aug))', "C12.b"),
     V("C12", "eval-aug-gather-axis", "rl4co/tasks/eval.py", "        rewards = unbatchify(rewards, num_augment)\n        actions = unbatchify(out[\"actions\"], num_augment)\n\n        # Get best reward and corresponding action\n        rewards, max_idxs = rewards.max(dim=1)\n        actions = gather_by_index(actions, max_idxs, dim=1)", "        rewards = unbatchify(rewards, num_augment)\n        actions = unbatchify(out[\"actions\"], num_augment)\n\n        # Get best reward and corresponding action\n        rewards, max_idxs = rewards.max(dim=1)\n        actions = gather_by_index(actions, max_idxs, dim=2)", "C12.c"),
     V("C12", "eval-multistart-factor-mismatch", "rl4co/tasks/eval.py", "        rewards = unbatchify(rewards, self.num_starts * num_augment)", "        rewards = unbatchify(rewards, self.num_starts)", "C12.b"),
-    V("C12", "smtwtp-not-counted-again", OPSF, '"pctsp", "spctsp", "smtwtp"]', '"pctsp", "spctsp"]', "C12.d"),
+    # since the F13 repair the start index wraps modulo (mask width - 1): an uncounted dummy node only repeats one start, it no longer leaves the mask
+    V("C12", "eq-smtwtp-not-counted-wraps", OPSF, '"pctsp", "spctsp", "smtwtp"]', '"pctsp", "spctsp"]', None),
+    V("C12", "start-modulus-from-generator-config", OPSF, '    num_nodes = td["action_mask"].shape[-1]\n', '    num_nodes = env.generator.num_loc + 1\n', "C12.d"),
+    V("C12", "depot-branch-modulus-full-width", OPSF, "            % (num_nodes - 1)\n            + 1", "            % num_nodes\n            + 1", "C12.d"),
+    V("C12", "mtvrp-start-modulus-from-generator", R + "mtvrp/env.py", '        num_loc = td["locs"].shape[-2] - 1\n        selected = (', '        num_loc = self.generator.num_loc\n        selected = (', "C12.d"),
     V("C12", "pdp-start-includes-deliveries", "rl4co/envs/routing/pdp/env.py", "            % num_possible_starts\n            + 1", "            % (2 * num_possible_starts)\n            + 1", "C12.d"),
     V("C12", "eq-ops-rename", OPSF, "selected", "picked", None, count=99),
 ]
@@ -686,7 +690,7 @@ CORPUS += [
     V("C12", "random-starts-plus-inf", OPSF, "ps[~action_mask] = -torch.inf", "ps[~action_mask] = torch.inf", "C12.d"),
     V("C12", "random-starts-mask-polarity", OPSF, "ps[~action_mask] = -torch.inf", "ps[action_mask] = -torch.inf", "C12.d"),
     V("C12", "eq-random-starts-replace-flipped-operands", OPSF, "    if n_valid_actions < n:", "    if n > n_valid_actions:", None),
-    V("C12", "depot-branch-no-plus-one", OPSF, "            % num_loc\n            + 1\n        )", "            % num_loc\n        )", "C12.d"),
+    V("C12", "depot-branch-no-plus-one", OPSF, "            % (num_nodes - 1)\n            + 1\n        )", "            % (num_nodes - 1)\n        )", "C12.d"),
     V("C12", "pdp-starts-not-halved", "rl4co/envs/routing/pdp/env.py", 'num_possible_starts = (td["locs"].shape[-2] - 1) // 2', 'num_possible_starts = (td["locs"].shape[-2] - 1)', "C12.d"),
     V("C12", "eq-pdp-starts-size-call", "rl4co/envs/routing/pdp/env.py", 'num_possible_starts = (td["locs"].shape[-2] - 1) // 2', 'num_possible_starts = (td["locs"].size(-2) - 1) // 2', None),
 ]
@@ -759,4 +763,27 @@ CORPUS += [
     V("C11", "eq-forward-hook-result-renamed", CPB, "        logprobs, actions, td, env = decode_strategy.post_decoder_hook(td, env)", "        lp, acts, td, env = decode_strategy.post_decoder_hook(td, env)\n        logprobs, actions = lp, acts", None),
     V("C16", "rollout-values-not-detached", BLF, "            .detach()\n            .cpu()", "            .cpu()", "C16.a"),
     V("C16", "eq-rollout-values-detach-after-cpu", BLF, "            .detach()\n            .cpu()", "            .cpu().detach()", None),
+]
+
+# ---- rules added after the sub-agent seeds: registry, best-replica outputs, expansion layout, frozen copy, ATSP closure, units
+_MG = R + "mtvrp/generator.py"
+_ME = R + "mtvrp/env.py"
+CORPUS += [
+    V("C10", "registry-greedy-dropped", DECP, '        "greedy": Greedy,\n', "", "C10.d"),
+    V("C10", "registry-multistart-greedy-samples", DECP, '"multistart_greedy": Greedy,', '"multistart_greedy": Sampling,', "C10.d"),
+    V("C12", "select-best-keeps-first-replica-state", DECP, "        td = unbatchify_and_gather(td, max_idxs, self.num_starts)\n\n        return logprobs, actions, td, env", "        td = td[: max_idxs.shape[0]]\n\n        return logprobs, actions, td, env", "C12.c"),
+    V("C12", "cache-expanded-instance-major", "rl4co/models/zoo/am/decoder.py", "new_embs.append(batchify(emb, num_starts))", "new_embs.append(emb.repeat_interleave(num_starts, dim=0))", "C12.a"),
+    V("C14", "cache-expanded-instance-major-c14", "rl4co/models/zoo/am/decoder.py", "new_embs.append(batchify(emb, num_starts))", "new_embs.append(emb.repeat_interleave(num_starts, dim=0))", "C14.e"),
+    V("C14", "loglik-dimensionless-squeeze", DECP, "logprobs = logprobs.gather(-1, actions.unsqueeze(-1)).squeeze(-1)", "logprobs = logprobs.gather(-1, actions.unsqueeze(-1)).squeeze()", "C14.b"),
+    V("C16", "rollout-baseline-shallow-copy", BLF, "self.policy = copy.deepcopy(policy).to(device)", "self.policy = copy.copy(policy).to(device)", "C16.a"),
+    V("C16", "warmup-mixture-weights-swapped", BLF, "            self.alpha * v_b + (1 - self.alpha) * v_wb,", "            v_b + self.alpha * (v_wb - v_b),", "C16.d"),
+    V("C16", "eq-warmup-mixture-factored", BLF, "            self.alpha * v_b + (1 - self.alpha) * v_wb,", "            v_wb + self.alpha * (v_b - v_wb),", None),
+    V("C18", "atsp-relaxation-early-exit", R + "atsp/generator.py", "                dms = torch.minimum(dms, dms[..., :, [i]] + dms[..., [i], :])", "                relaxed = torch.minimum(dms, dms[..., :, [i]] + dms[..., [i], :])\n                if torch.equal(relaxed, dms):\n                    break\n                dms = relaxed", "C18.e"),
+    V("C18", "atsp-relaxation-skips-last-pivot", R + "atsp/generator.py", "            for i in range(self.num_loc):", "            for i in range(self.num_loc - 1):", "C18.e"),
+    V("C18", "mtvrp-tw-start-in-distance-units", _MG, "torch.rand(batch_size, n_loc)) * d_0i / speed", "torch.rand(batch_size, n_loc)) * d_0i", "C18.f"),
+    V("C18", "mtvrp-hmax-without-speed", _MG, "/ d_0i * speed - 1", "/ d_0i - 1", "C18.f"),
+    V("C01", "mtvrp-step-clock-adds-distance", _ME, 'td["current_time"] + distance / td["speed"], start_times', 'td["current_time"] + distance, start_times', "C01.u"),
+    V("C01", "mtvrp-mask-arrival-adds-distance", _ME, 'arrival_time = td["current_time"] + (d_ij / td["speed"])', 'arrival_time = td["current_time"] + d_ij', "C01.u"),
+    V("C06", "mtvrp-checker-clock-adds-distance-again", _ME, 'curr_time + dist / td["speed"].squeeze(-1),', "curr_time + dist,", "C06.h"),
+    V("C06", "mtvrp-checker-return-times-speed", _ME, 'td["time_windows"][..., :, 0] + d_j0 / td["speed"] + td["service_time"]', 'td["time_windows"][..., :, 0] + d_j0 * td["speed"] + td["service_time"]', "C06.h"),
 ]
